@@ -2,7 +2,7 @@
    Model: V.C17.Model (cells of the 64-byte union / caller array / std::string), abstract builder: V.C17.Spec.
    Kinds: 0 StringBuilder(), 1 StringBuilder(std::string&), 2 (buf, cap, Fixed), 3 (buf, cap, Dynamic).
    ok_op only demands what decode_ops guarantees: run lengths / resize targets >= 0, numbers are 64-bit patterns. *)
-Require Import V.Lib.Base V.Lib.Dec V.Gen.Consts_C17 V.C17.Model V.C17.Spec V.C17.ProofsProps V.C17.ProofsRun.
+Require Import V.Lib.Base V.Lib.Dec V.Gen.Consts_C17 V.C17.Model V.C17.Spec V.C17.ProofsProps V.C17.ProofsRun V.C17.ProofsDecode.
 Local Open Scope Z_scope.
 
 (* All operation sequences, all four kinds, every capacity >= 0 (0 and 1 included): after the constructor and after
@@ -13,6 +13,13 @@ Theorem c17_refines : forall k cap ini ops, 0 <= k <= 3 -> 0 <= cap -> Forall ok
   run k cap ini ops = arun k cap ini ops.
 Proof. exact run_refines. Qed.
 Print Assumptions c17_refines.
+
+(* The same for run_case, the function the correspondence check executes on every generated case: for EVERY list of
+   integers with a kind in 0..3 and a capacity >= 0 (decode_ops only produces operations that satisfy ok_op). *)
+Theorem c17_refines_cases : forall k cap r, 0 <= k <= 3 -> 0 <= cap ->
+  run_case (k :: cap :: r) = arun_case (k :: cap :: r).
+Proof. exact run_case_refines. Qed.
+Print Assumptions c17_refines_cases.
 
 (* the same, state by state *)
 Theorem c17_reported : forall k cap ini ops, 0 <= k <= 3 -> 0 <= cap -> Forall ok_op ops ->
@@ -70,8 +77,8 @@ Proof. exact concatenation. Qed.
 Print Assumptions c17_concatenation.
 
 (* a number's piece is its decimal representation (independent definition V.Lib.Dec.print_nat) *)
-Theorem c17_number_text : forall u p, 0 <= u < two64 -> (p = false -> 0 < u) ->
-  num_text u p = Some (if p then print_nat u else 45 :: print_nat (two64 - u)).
+Theorem c17_number_text : forall u p, 0 <= u < two64 ->
+  num_text u p = Some (if p then print_nat u else 45 :: print_nat ((two64 - u) mod two64)).
 Proof. exact ProofsNum.num_text_piece. Qed.
 Print Assumptions c17_number_text.
 
@@ -80,7 +87,7 @@ Definition az (n : Z) : list Z := zrepeat 97 n.
 Definition ops_ok_b (ops : list op) : bool :=
   forallb (fun o => match o with
                     | OFill n _ | OResize n _ => 0 <=? n
-                    | ONum u p => (0 <=? u) && (u <? two64) && (p || (0 <? u))
+                    | ONum u _ => (0 <=? u) && (u <? two64)
                     | _ => true end) ops.
 Definition last_state k cap ini ops := let s := reach k cap ini ops in (c_size s, c_term s, tag s, b2z (erange s), b2z (fault s)).
 
